@@ -51,6 +51,8 @@ def do_replay(prop, path):
     with open(path) as f:
         body = json.load(f)
     case = body["case"]
+    for earlier in (body.get("history") or [])[:-1]:
+        core.run_case(mod, earlier, wall_limit=120)  # the recorded predecessors, in order, in this very process
     out = core.run_case(mod, case, keep_trace=True, wall_limit=120)
     want = body.get("violation", {})
     print("replay %s: status=%s oracle=%s sig=%s" % (path, out.status, out.oracle, out.sig))
@@ -144,13 +146,21 @@ def run_check(prop, tier, runs=None, start=0, workers=None, write_evidence=True)
                 return known.match(prop, c, o) is None
 
             small, execs = minimise_with_accept(mod, case, oracle, accept)
-        out = core.run_case(mod, small, wall_limit=180)
-        od2 = out.as_dict()
-        if out.status not in (core.VIOLATION, core.TIMEOUT):
-            rc = 2
-            harness_msgs.append("violation of run %d did not reproduce in-process (%s)" % (i, od))
-            continue
-        path = core.write_replay(prop, base, i, small, od2, small is not case, execs)
+        alone = core.run_history_in_fresh_process(prop, [small])
+        history = None
+        if alone is None or alone.get("status") not in (core.VIOLATION, core.TIMEOUT) or alone.get("oracle") != oracle:
+            # not reproducible on its own: does it depend on the runs before it in its chunk?
+            history = history_dependent(mod, prop, base, tier, i, case, od)
+            if history is None:
+                rc = 2
+                harness_msgs.append("violation of run %d reproduces neither alone nor after its chunk prefix in a fresh process (%s)" % (i, od))
+                continue
+            small, execs = case, 0
+            od2 = dict(od)
+            od2["detail"] = "[depends on %d earlier call(s) in the same process - state leaks between calls] %s" % (len(history) - 1, od.get("detail") or "")
+        else:
+            od2 = alone
+        path = core.write_replay(prop, base, i, small, od2, small is not case, execs, history=history)
         ok, text = core.replay_in_fresh_process(prop, path)
         if not ok:
             rc = 2
@@ -182,6 +192,42 @@ def run_check(prop, tier, runs=None, start=0, workers=None, write_evidence=True)
     if res.get("truncated"):
         log("[%s] batch truncated by wall cap" % prop)
     return rc
+
+
+def history_dependent(mod, prop, base, tier, index, case, od, budget=60):
+    """The violation of run `index` did not reproduce alone. Re-execute its chunk prefix in a fresh
+    interpreter; if that reproduces it, shrink the prefix (ddmin over the predecessor runs) and return
+    the minimal list of cases [predecessors..., case]; else None."""
+    lo = od.get("chunk_lo")
+    if lo is None or lo >= index:
+        return None
+    oracle = od["oracle"]
+    pred = []
+    for j in range(lo, index):
+        try:
+            pred.append(mod.generate(core.run_seed(base, prop, j), j, tier))
+        except Exception:
+            return None
+
+    def fails(cases):
+        r = core.run_history_in_fresh_process(prop, cases + [case])
+        return r is not None and r.get("status") == core.VIOLATION and r.get("oracle") == oracle
+
+    if not fails(pred):
+        return None
+    execs = 1
+    improved = True
+    while improved and execs < budget and pred:
+        improved = False
+        for cand in core.ddmin_list(pred):
+            execs += 1
+            if fails(cand):
+                pred = cand
+                improved = True
+                break
+            if execs >= budget:
+                break
+    return pred + [case]
 
 
 def minimise_with_accept(mod, case, oracle, accept, budget=400):
@@ -286,6 +332,15 @@ def main(argv):
         return 2
     if "replay" in opts:
         return do_replay(prop, opts["replay"])
+    if "run-history" in opts:
+        mod = load_mod(prop)
+        with open(opts["run-history"]) as f:
+            cases = json.load(f)["cases"]
+        out = None
+        for c in cases:
+            out = core.run_case(mod, c, wall_limit=120)
+        print("HISTORY-RESULT " + json.dumps(out.as_dict() if out is not None else None))
+        return 0
     tier = opts.get("tier") or os.environ.get("VERIF_TIER") or "quick"
     if tier not in ("quick", "thorough"):
         tier = "quick"
